@@ -577,6 +577,15 @@ impl FuChecker {
                 v.push(FuOp::Advance { secs: DAY });
                 v.push(FuOp::Advance { secs: DAY });
             }
+            "F15" => {
+                // a farm that has ended (not yet expired); the whale has claimed everything, what is left is the minnow's due
+                // and is smaller than one epoch's emission
+                v.push(pos(A, 0, 9900, DAY));
+                v.push(pos(B, 0, 100, DAY));
+                v.push(farm_op(fee, C, 0, Some(1), Some(5), ("uusdc", 4000), Some("w")));
+                v.push(FuOp::Advance { secs: 6 * DAY });
+                v.push(FuOp::Claim { u: A, until: None });
+            }
             "F12" => {
                 // the LP token is at its limit of concurrent farms (2) and every farm ever created had an explicit identifier
                 v.push(pos(A, 0, 1000, DAY));
@@ -701,8 +710,12 @@ pub fn enabled(c: &FuChecker, w: &World, pre: &FuObs, g: &FuGhost) -> Vec<FuOp> 
                         ops.push(FuOp::ClosePos { u, id: p.identifier.clone(), partial: Some((li, amt + 1)) });
                     }
                 } else if matches!(a, FAlpha::Full | FAlpha::Positions) {
-                    // closing / topping up a position that is already closed
+                    // closing / topping up a position that is already closed (whole, by its exact amount, one unit of it)
                     ops.push(FuOp::ClosePos { u, id: p.identifier.clone(), partial: None });
+                    ops.push(FuOp::ClosePos { u, id: p.identifier.clone(), partial: Some((li, amt)) });
+                    if amt > 1 {
+                        ops.push(FuOp::ClosePos { u, id: p.identifier.clone(), partial: Some((li, 1)) });
+                    }
                     ops.push(FuOp::ExpandPos { u, id: p.identifier.clone(), lp: li, amount: 3 });
                 }
                 ops.push(FuOp::WithdrawPos { u, id: p.identifier.clone(), emergency: Some(true) });
